@@ -36,3 +36,14 @@ package mr
 //@   ghost at after buildOptions#0: bo = ret
 //@   loop 0: invariant true
 //@   call go#1: assert arg_mCtx.workers == bo.workers && arg_mCtx.source == source && arg_mCtx.collector == collector
+
+// every entry point hands the caller's options (the worker cap among them) on unchanged
+//@ func MapReduce
+//@   property C05
+//@   call mapReduceWithPanicChan#0: assert sameSlice(arg_opts, opts)
+//@ func MapReduceChan
+//@   property C05
+//@   call mapReduceWithPanicChan#0: assert sameSlice(arg_opts, opts) && arg_source == source
+//@ func MapReduceVoid
+//@   property C05
+//@   call MapReduce#0: assert sameSlice(arg_opts, opts)
